@@ -1271,6 +1271,14 @@ class Interp:
             return ("vec", ("bytes_of", a0)) if "vec" in p or "boxed" in p else a0
         if p in COPIES or rp in COPIES:
             return ("vec", self.argval(path, a0))
+        if p == "alloc::slice::<impl [T]>::concat" and "[&[u8]]" in ce.get("full", "") and is_ptr(a0):
+            # [a, b, c].concat(): a fresh Vec holding the parts in order
+            arr = self.content(path, a0[1])
+            if isinstance(arr, tuple) and arr and arr[0] == "agg" and arr[1] == "array":
+                out_ = ("concat", ())
+                for part in arr[2]:
+                    out_ = concat(out_, self.argval(path, part))
+                return ("vec", out_)
         # ---- vec
         if p in ("alloc::vec::Vec::<T>::new", "alloc::vec::Vec::<T>::with_capacity"):
             return ("vec", ("concat", ()))
